@@ -6,6 +6,8 @@ import (
 	"strings"
 	"sync"
 
+	"gonum.org/v1/gonum/blas"
+
 	"gonum.org/v1/gonum/internal/verif/vlib"
 	"gonum.org/v1/gonum/lapack"
 )
@@ -25,6 +27,38 @@ var gsvdFams = []gsvdFam{
 	{"zeroA", func(m, p, n int) (M, M) { return zeros(m, n), intGeneral(p, n, 2, lcgFor(53, p, n)) }},
 	{"zeroB", func(m, p, n int) (M, M) { return intGeneral(m, n, 2, lcgFor(54, m, n)), zeros(p, n) }},
 	{"graded", func(m, p, n int) (M, M) { return genGraded(m, n), genOrthDiag(p, n) }},
+	// column j of both matrices is of size 2^(-6j): a column-pivoted QR keeps the
+	// natural order, so the results do not depend on whether Dggsvp3 pivots
+	{"colgraded", func(m, p, n int) (M, M) { return colGraded(m, n, 55), colGraded(p, n, 56) }},
+}
+
+// colGraded has non-zero integer entries in {±1, ±2, ±3} times 2^(-6j) in column j.
+func colGraded(r, c, seed int) M {
+	l := lcgFor(seed, r, c)
+	m := newM(r, c)
+	for i := 0; i < r; i++ {
+		for j := 0; j < c; j++ {
+			v := float64(1+l.Next()%3) * float64(1-2*int(l.Next()&1))
+			m.set(i, j, math.Ldexp(v, -6*j))
+		}
+	}
+	return m
+}
+
+// wideShapes are (m, p, n) with n > m+p and m >= 2: Dggsvp3 then has n-l > k >= 2,
+// the branch that RQ-factors [T11 T12] and updates Q with its reflectors.
+func wideShapes(thorough bool) [][3]int {
+	s := [][3]int{{2, 0, 5}, {2, 1, 5}, {3, 1, 6}, {3, 2, 8}, {2, 2, 7}, {3, 0, 5}, {4, 1, 8}, {3, 3, 9}, {2, 1, 6}}
+	if thorough {
+		for m := 2; m <= 5; m++ {
+			for p := 0; p <= 3; p++ {
+				for n := m + p + 1; n <= m+p+3; n++ {
+					s = append(s, [3]int{m, p, n + 3})
+				}
+			}
+		}
+	}
+	return s
 }
 
 func genDggsvd3(g *vlib.G) {
@@ -44,6 +78,16 @@ func genDggsvd3(g *vlib.G) {
 						})
 					}
 				}
+			}
+		}
+	}
+	for _, s := range wideShapes(g.Thorough()) {
+		for _, f := range fams {
+			for _, ldx := range []int{0, 2} {
+				s, f, ldx := s, f, ldx
+				kase(g, fmt.Sprintf("Dggsvd3 m=%d p=%d n=%d fam=%s ld=+%d wide", s[0], s[1], s[2], f.name, ldx), func(t *vlib.T) {
+					runDggsvd3(t, s[0], s[1], s[2], f, ldx)
+				})
 			}
 		}
 	}
@@ -103,7 +147,7 @@ func runDggsvd3(t *vlib.T, m, p, n int, f gsvdFam, ldx int) {
 	a, b := f.gen(m, p, n)
 	na, nb := fro(a), fro(b)
 	dim := fmax(m, p, n)
-	lda, ldb := ldOf(n, ldx), ldOf(n, ldx)
+	lda, ldb := ldOf(n, off(ldx, 0)), ldOf(n, off(ldx, 1))
 	type result struct {
 		k, l        int
 		alpha, beta []float64
@@ -127,17 +171,17 @@ func runDggsvd3(t *vlib.T, m, p, n int, f gsvdFam, ldx int) {
 		var ud, vd, qd []float64
 		ldu, ldv, ldq := 1, 1, 1
 		if jobU == lapack.GSVDU {
-			ldu = ldOf(m, ldx)
+			ldu = ldOf(m, off(ldx, 2))
 			us = newS(m, m, ldu).snap()
 			ud = us.d
 		}
 		if jobV == lapack.GSVDV {
-			ldv = ldOf(p, ldx)
+			ldv = ldOf(p, off(ldx, 3))
 			vs = newS(p, p, ldv).snap()
 			vd = vs.d
 		}
 		if jobQ == lapack.GSVDQ {
-			ldq = ldOf(n, ldx)
+			ldq = ldOf(n, off(ldx, 4))
 			qs = newS(n, n, ldq).snap()
 			qd = qs.d
 		}
@@ -187,7 +231,10 @@ func runDggsvd3(t *vlib.T, m, p, n int, f gsvdFam, ldx int) {
 			t.Failf("alpha/beta left unset: %v %v [%s]", alpha, beta, ctx)
 			continue
 		}
-		outcome = fmt.Sprintf("m-k-l>=0:%v k>0:%v l>0:%v", m-k-l >= 0, k > 0, l > 0)
+		outcome = fmt.Sprintf("m-k-l>=0:%v k>0:%v l>0:%v rqA(k>=2):%v", m-k-l >= 0, k > 0, l > 0, n-l > k && k >= 2)
+		if jobs == 7 {
+			countRQ(t, a, b, n, k, l)
+		}
 		checkGsvdRanks(t, a, b, k, l, ctx)
 		// documented values of alpha and beta
 		for i := 0; i < n; i++ {
@@ -282,12 +329,14 @@ func runDggsvd3(t *vlib.T, m, p, n int, f gsvdFam, ldx int) {
 
 // gsvdAttribute attaches the inputs of a failed GSVD case.
 func gsvdAttribute(t *vlib.T, a, b M, findingsBefore int) {
-	if nFindings == findingsBefore && ggsvp3PivotBroken() {
+	if nFindings == findingsBefore && ggsvp3PivotBroken() && pivotingMatters(a, b) {
 		// No rank mismatch was seen, but the tree under test has the no-pivoting
-		// defect (probe below); its second unpivoted QR (of A11) also breaks the
-		// documented structure when the ranks come out right by accident, e.g.
-		// A = [1 0 0; 0 1 0], B = [-2 0 0].
-		finding(t, "dggsvp3-no-pivoting", "failure without rank mismatch in a tree whose Dggsvp3 does not pivot (probe): attributed")
+		// defect (probe below) and for this input a column-pivoted QR of B, or of the
+		// block A11 that Dggsvp3 factors next, would have permuted columns: the
+		// unpivoted factorization breaks the documented structure although the ranks
+		// come out right by accident, e.g. A = [1 0 0; 0 1 0], B = [-2 0 0]. Inputs
+		// for which pivoting is a no-op in both stages are never attributed.
+		finding(t, "dggsvp3-no-pivoting", "failure without rank mismatch; Dggsvp3 of this tree does not pivot (probe) and pivoting would permute columns for this input: attributed")
 	}
 	if a.r*a.c+b.r*b.c <= 64 {
 		t.Detail(map[string]any{"a": fmt.Sprint(a.a), "b": fmt.Sprint(b.a)})
@@ -317,6 +366,14 @@ func genDggsvp3(g *vlib.G) {
 			}
 		}
 	}
+	for _, sh := range wideShapes(g.Thorough()) {
+		for _, f := range gsvdFams {
+			sh, f := sh, f
+			kase(g, fmt.Sprintf("Dggsvp3 m=%d p=%d n=%d fam=%s lwork=query wide", sh[0], sh[1], sh[2], f.name), func(t *vlib.T) {
+				runDggsvp3(t, sh[0], sh[1], sh[2], f, "query")
+			})
+		}
+	}
 }
 
 func runDggsvp3(t *vlib.T, m, p, n int, f gsvdFam, lw string) {
@@ -324,8 +381,7 @@ func runDggsvp3(t *vlib.T, m, p, n int, f gsvdFam, lw string) {
 	a, b := f.gen(m, p, n)
 	na, nb := fro(a), fro(b)
 	dim := fmax(m, p, n)
-	ldx := 1
-	lda, ldb, ldu, ldv, ldq := ldOf(n, ldx), ldOf(n, ldx), ldOf(m, ldx), ldOf(p, ldx), ldOf(n, ldx)
+	lda, ldb, ldu, ldv, ldq := ldOf(n, 1), ldOf(n, 2), ldOf(m, 0), ldOf(p, 3), ldOf(n, 4)
 	as, bs := fromM(a, lda).snap(), fromM(b, ldb).snap()
 	us, vs, qs := newS(m, m, ldu).snap(), newS(p, p, ldv).snap(), newS(n, n, ldq).snap()
 	tola := fmax(m, n) * math.Max(na, 0x1p-1022) * eps
@@ -354,6 +410,7 @@ func runDggsvp3(t *vlib.T, m, p, n int, f gsvdFam, lw string) {
 		t.Outcome("panic")
 		return
 	}
+	countRQ(t, a, b, n, k, l)
 	checkGsvdRanks(t, a, b, k, l, "")
 	for name, s := range map[string]*S{"a": as, "b": bs, "u": us, "v": vs, "q": qs} {
 		if i, ok := s.padOK(s.r, s.c); !ok {
@@ -391,7 +448,7 @@ func runDggsvp3(t *vlib.T, m, p, n int, f gsvdFam, lw string) {
 	if min(m, p, n) >= 2 {
 		t.Nontrivial()
 	}
-	t.Outcome(fmt.Sprintf("m-k-l>=0:%v k>0:%v l>0:%v", m-k-l >= 0, k > 0, l > 0))
+	t.Outcome(fmt.Sprintf("m-k-l>=0:%v k>0:%v l>0:%v rqA(k>=2):%v", m-k-l >= 0, k > 0, l > 0, n-l > k && k >= 2))
 	if t.Failed() {
 		gsvdAttribute(t, a, b, f0)
 	}
@@ -446,17 +503,17 @@ func runDgghrd(t *vlib.T, n, ilo, ihi, fam, ldx int, comps []lapack.OrthoComp) {
 	}
 	na, nb := fro(a), fro(b)
 	dim := fmax(n)
-	ld := ldOf(n, ldx)
+	lda, ldb, ldqq, ldzz := ldOf(n, off(ldx, 0)), ldOf(n, off(ldx, 1)), ldOf(n, off(ldx, 2)), ldOf(n, off(ldx, 3))
 	q1, z1 := randOrth(n, lcgFor(62, n, fam)), randOrth(n, lcgFor(63, n, fam))
 	var refH, refT []float64
 	for _, compq := range comps {
 		for _, compz := range comps {
 			ctx := fmt.Sprintf("compq=%c compz=%c", compq, compz)
-			as, bs := fromM(a, ld).snap(), fromM(b, ld).snap()
+			as, bs := fromM(a, lda).snap(), fromM(b, ldb).snap()
 			// the strict lower triangle of B is not part of the input
 			for i := 0; i < n; i++ {
 				for j := 0; j < i; j++ {
-					bs.d[i*ld+j] = vlib.Poison64(i*n + j)
+					bs.d[i*ldb+j] = vlib.Poison64(i*n + j)
 				}
 			}
 			var qs, zs *S
@@ -464,28 +521,33 @@ func runDgghrd(t *vlib.T, n, ilo, ihi, fam, ldx int, comps []lapack.OrthoComp) {
 			ldq, ldz := 1, 1
 			switch compq {
 			case lapack.OrthoExplicit:
-				qs = newS(n, n, ld).snap()
+				qs = newS(n, n, ldqq).snap()
 			case lapack.OrthoPostmul:
-				qs = fromM(q1, ld).snap()
+				qs = fromM(q1, ldqq).snap()
 			}
 			switch compz {
 			case lapack.OrthoExplicit:
-				zs = newS(n, n, ld).snap()
+				zs = newS(n, n, ldzz).snap()
 			case lapack.OrthoPostmul:
-				zs = fromM(z1, ld).snap()
+				zs = fromM(z1, ldzz).snap()
 			}
 			if qs != nil {
-				qd, ldq = qs.d, ld
+				qd, ldq = qs.d, ldqq
 			}
 			if zs != nil {
-				zd, ldz = zs.d, ld
+				zd, ldz = zs.d, ldzz
 			}
-			impl.Dgghrd(compq, compz, n, ilo, ihi, as.d, ld, bs.d, ld, qd, ldq, zd, ldz)
+			impl.Dgghrd(compq, compz, n, ilo, ihi, as.d, lda, bs.d, ldb, qd, ldq, zd, ldz)
 			if n <= 1 {
 				// quick return: B's lower triangle is not touched for n == 1 (there is none)
 			}
-			if i, ok := as.padOK(n, n); !ok {
-				t.Failf("padding of a modified at flat index %d [%s]", i, ctx)
+			for name, st := range map[string]*S{"a": as, "b": bs, "q": qs, "z": zs} {
+				if st == nil {
+					continue
+				}
+				if i, ok := st.padOK(n, n); !ok {
+					t.Failf("padding of %s modified at flat index %d [%s]", name, i, ctx)
+				}
 			}
 			h, tt := as.toM(), bs.toM()
 			if hasNaN(h.a) || hasNaN(tt.a) {
@@ -615,4 +677,91 @@ func ggsvp3PivotBroken() bool {
 		}
 	})
 	return pivotBroken
+}
+
+// wouldPermute reports whether Dgeqp3 with all columns free permutes the columns of x.
+func wouldPermute(x M) bool {
+	if x.r == 0 || x.c == 0 {
+		return false
+	}
+	d := append([]float64(nil), x.a...)
+	jp := make([]int, x.c)
+	for i := range jp {
+		jp[i] = -1
+	}
+	tau := make([]float64, min(x.r, x.c))
+	w := make([]float64, 1)
+	impl.Dgeqp3(x.r, x.c, d, x.c, jp, tau, w, -1)
+	w = make([]float64, max(int(w[0]), 3*x.c+1))
+	impl.Dgeqp3(x.r, x.c, d, x.c, jp, tau, w, len(w))
+	for i, v := range jp {
+		if v != i {
+			return true
+		}
+	}
+	return false
+}
+
+// pivotingMatters replays the first stage of Dggsvp3 as the defective tree runs
+// it (unpivoted QR of B, RQ of its leading rows, A := A*Zᵀ) and reports whether
+// column pivoting would have changed either QR factorization. Used only to
+// decide whether a failure may be attributed to finding dggsvp3-no-pivoting.
+func pivotingMatters(a, b M) (matters bool) {
+	defer func() {
+		if recover() != nil {
+			matters = true
+		}
+	}()
+	if wouldPermute(b) {
+		return true
+	}
+	m, p, n := a.r, b.r, a.c
+	if m == 0 || n == 0 {
+		return false
+	}
+	as, bs := append([]float64(nil), a.a...), append([]float64(nil), b.a...)
+	l := 0
+	if p > 0 {
+		jp := make([]int, n) // zeros: every column pinned, as in the defective tree
+		tau := make([]float64, n)
+		w := make([]float64, 1)
+		impl.Dgeqp3(p, n, bs, n, jp, tau, w, -1)
+		w = make([]float64, max(int(w[0]), 3*n+1, m, n, p))
+		impl.Dgeqp3(p, n, bs, n, jp, tau, w, len(w))
+		tolb := fmax(p, n) * math.Max(fro(b), 0x1p-1022) * eps
+		for i := 0; i < min(p, n); i++ {
+			if math.Abs(bs[i*n+i]) > tolb {
+				l++
+			}
+		}
+		if l > 0 && n != l {
+			for i := 1; i < l; i++ { // clean up below the diagonal as Dggsvp3 does
+				for j := 0; j < i; j++ {
+					bs[i*n+j] = 0
+				}
+			}
+			impl.Dgerq2(l, n, bs, n, tau, w)
+			impl.Dormr2(blas.Right, blas.Trans, m, n, l, bs, n, tau, as, n, w)
+		}
+	}
+	if n-l <= 0 {
+		return false
+	}
+	a11 := newM(m, n-l)
+	for i := 0; i < m; i++ {
+		copy(a11.a[i*(n-l):(i+1)*(n-l)], as[i*n:i*n+n-l])
+	}
+	return wouldPermute(a11)
+}
+
+// countRQ records (for the evidence) how often the branch n-l > k >= 2 of
+// Dggsvp3 ran with Q wanted, and how often on an input for which pivoting is a
+// no-op (such a case can never be attributed to the known no-pivoting finding).
+func countRQ(t *vlib.T, a, b M, n, k, l int) {
+	if n-l > k && k >= 2 {
+		t.Count("gsvd_rq_of_A11_k>=2", 1)
+		if !pivotingMatters(a, b) {
+			t.Count("gsvd_rq_of_A11_k>=2_pivoting_noop", 1)
+		}
+	}
 }
